@@ -63,6 +63,9 @@ class OriginItem(EFLRItem):
             **kwargs,
         )
 
+    def _set_defaults_at_init(self) -> None:
+        """Set default file set number and creation time - if they have not been specified."""
+
         if self.file_set_number.value is None:
             logger.info(f"File set number for {self} not specified")
             if global_config.high_compat_mode:
@@ -70,8 +73,9 @@ class OriginItem(EFLRItem):
                 # Schlumberger's Log Data Composer; no such issues noticed when the file set number is 1
                 # (or other low number)
                 # the default file_set_number is the number of origins defined so far (for the current OriginSet)
-                # (this includes the current OriginItem, so the lowest number is 1)
-                n = self.parent.n_items
+                # (this includes the current OriginItem, which is not registered with the OriginSet yet,
+                # so the lowest number is 1)
+                n = self.parent.n_items + 1
                 logger.info(f"Setting file set number of {self} to {n}")
                 self.file_set_number.value = n
             else:
